@@ -18,6 +18,8 @@ func noneOf(chars string) func([]byte) bool {
 	return func(d []byte) bool { return !bytes.ContainsAny(d, chars) }
 }
 
+var c11OnGFM = []string{"footnote", "deflist", "typo", "cjk", "cjkesc", "cjkcss3"}
+
 var c11Exts = []c11Ext{
 	{"strike", noneOf("~"), false},
 	{"table", noneOf("-"), false},
@@ -78,13 +80,20 @@ func runC11(c *Ctx) {
 		g4 := b
 		g4.Ext = "gfm4"
 		cfgs = append(cfgs, g4)
+		// each non-GFM extension on top of GFM as well (extensions interact through the shared
+		// inline loop and the renderer)
+		for _, e := range c11OnGFM {
+			x := b
+			x.Ext = "gfm+" + e
+			cfgs = append(cfgs, x)
+		}
 	}
 	o := docOpts{exhaustiveLen: 3, corpus: true, random: 8000, mutants: 8000, blockLines: 2, randLines: 10000}
 	if !c.Quick() {
 		o = docOpts{exhaustiveLen: 3, corpus: true, random: 300000, randomTok: 16, mutants: 300000, blockLines: 3, randLines: 300000}
 	}
 	items := collectDocs(c, o, func(add func(string, []byte)) {
-		for _, t := range []string{"### bar    ###", "foo    \nbar", "foo\n*bar*", "foo\n`c`", "a\\\tb", "col1\\\tcol2", "[t](/u \"a\\\nb\")", "see ftp://a.b/c now", "| ftp://a.b |\n|--|", "- [ ] ftp://x.y", "http://a.b https://c.d www.e.f g@h.i",
+		for _, t := range []string{"### bar    ###", "foo    \nbar", "foo\n*bar*", "foo\n`c`", "a\\\tb", "col1\\\tcol2", "see\\\thttp://example.com/docs", "x\\\twww.a.b y", "m\\\ta@b.c", "a\\\nhttp://x.y", "t\\\t~~s~~", "[t](/u \"a\\\nb\")", "see ftp://a.b/c now", "| ftp://a.b |\n|--|", "- [ ] ftp://x.y", "http://a.b https://c.d www.e.f g@h.i",
 			"a  \nb", "a \\  \nb", "*a*   \nb", "x\n\n    y   \n", "# h  \n", "> a   \n> b", "- a   \n", "a\n b\n  c", "\\*a\\*", "a\\\nb", "1. x\n   y  \n"} {
 			add("targeted", []byte(t))
 		}
@@ -103,6 +112,9 @@ func runC11(c *Ctx) {
 		for _, s := range all {
 			if !same(s.cf, m.cf) || s.cf.Ext == "core" {
 				continue
+			}
+			if strings.HasPrefix(s.cf.Ext, "gfm+") {
+				continue // compared with GFM below
 			}
 			if s.cf.Ext == "gfm" || s.cf.Ext == "gfm4" {
 				o, e2, p2 := convertSafe(s.md, d)
@@ -134,6 +146,33 @@ func runC11(c *Ctx) {
 					return "KNOWN:cjkcss3-ascii-punct " + fmt.Sprintf("%.120q vs %.120q", o, base), nontrivial
 				}
 				return fmt.Sprintf("extension %s changes a document without its trigger characters: %.250q vs %.250q", strings.ToUpper(ext.name), o, base), nontrivial
+			}
+		}
+		if gfm != nil {
+			for _, s := range all {
+				if !same(s.cf, m.cf) || !strings.HasPrefix(s.cf.Ext, "gfm+") {
+					continue
+				}
+				name := strings.TrimPrefix(s.cf.Ext, "gfm+")
+				var ext *c11Ext
+				for i := range c11Exts {
+					if c11Exts[i].name == name {
+						ext = &c11Exts[i]
+					}
+				}
+				if ext == nil || !ext.free(d) {
+					continue
+				}
+				o, e2, p2 := convertSafe(s.md, d)
+				if e2 != "" || p2 != "" {
+					continue
+				}
+				if !bytes.Equal(o, gfm) {
+					if name == "cjkcss3" && onlyPunctBreaksDropped(d, gfm, o) {
+						return "KNOWN:cjkcss3-ascii-punct " + fmt.Sprintf("%.120q vs %.120q", o, gfm), nontrivial
+					}
+					return fmt.Sprintf("extension %s on top of GFM changes a document without its trigger characters: %.250q vs %.250q", strings.ToUpper(name), o, gfm), nontrivial
+				}
 			}
 		}
 		if gfm != nil && gfm4 != nil && !bytes.Equal(gfm, gfm4) {
